@@ -193,6 +193,12 @@ S["loop_outer_tier_settles"] = dict(
     sims=[E("A", group="h", init_event=0, emit=[0, 0], next=[None, None, 1]),
           E("B", group="h2", emit_default=0)],
     conns=[C("A", "B", "eo", "ti"), C("B", "A", "eo", "ti", weak=True)])
+# ... and on the innermost tier of a nested group
+S["loop_inner_tier_unsettled"] = dict(
+    until=2, max_loop=3, groups={"g": None, "h": "g"},
+    sims=[E("A", group="h", init_event=0, emit_default=0), E("B", group="h", emit_default=0),
+          T("O", group="g")],
+    conns=[C("A", "B", "eo", "ti"), C("B", "A", "eo", "ti", weak=True)])
 # a loop member always answers for the next time step: one sub-step per time step, forever
 S["weak_loop_next_time"] = dict(
     until=6, max_loop=3, groups=G1,
